@@ -148,7 +148,7 @@ func (a *FuncAn) condLins(cond ssa.Value, truth bool) []Lin {
 
 // LoopProgress checks every natural loop of f.
 func (e *Engine) LoopProgress(f *ssa.Function) []LoopRes {
-	a := e.Analyze(f)
+	a := e.AnalyzeCtx(f)
 	if a == nil {
 		return nil
 	}
